@@ -11,7 +11,7 @@ from vlib import gen, model, runner
 from vlib import universe as U
 
 ROUTES = ('flatten', 'pickle', 'collection', 'transform_id', 'compose_leaf', 'self_broadcast', 'copy', 'deepcopy', 'with_path',
-          'child_of_wrapper', 'children_of_wrapper')
+          'child_of_wrapper', 'children_of_wrapper', 'leaf_compose')
 
 
 def releaf(draw, desc):
@@ -75,6 +75,8 @@ def spec_via(route, tree, cfg, m):
             return spec.transform(lambda s: s, lambda s: s)
         if route == 'compose_leaf':
             return spec.compose(optree.treespec_leaf(none_is_leaf=cfg['nil']))
+        if route == 'leaf_compose':
+            return optree.treespec_leaf(none_is_leaf=cfg['nil']).compose(spec)
         if route == 'self_broadcast':
             return spec.broadcast_to_common_suffix(spec)
         if route == 'copy':
@@ -128,7 +130,14 @@ class C06(runner.Prop):
         except Exception as e:  # noqa: BLE001
             ctx.fail('route/raises', f'{case["ra"]}/{case["rb"]}: {type(e).__name__}: {e}')
             return
-        ns_ok = (not A.namespace) or (not B.namespace) or A.namespace == B.namespace
+        # a route must not change what the flatten route records (namespace, none_is_leaf): the expected
+        # compatibility below is computed from the *flatten* route's namespaces, not from the routed specs' own
+        FA, FB = spec_via('flatten', ta, cfga, ma), spec_via('flatten', tb, cfgb, mb)
+        for name, R, F in (('a', A, FA), ('b', B, FB)):
+            if R.namespace != F.namespace or R.none_is_leaf != F.none_is_leaf:
+                ctx.fail('route/attributes', f'{case["r" + name]}: namespace {R.namespace!r} none_is_leaf {R.none_is_leaf} '
+                                             f'vs flatten route {F.namespace!r} {F.none_is_leaf}; spec={R}')
+        ns_ok = (not FA.namespace) or (not FB.namespace) or FA.namespace == FB.namespace
         want = cfga['nil'] == cfgb['nil'] and ns_ok and model.spec_eq(msa, msb)
         got = (A == B)
         ctx.label('equal' if want else 'unequal', f'rel:{case["rel"]}')
